@@ -20,6 +20,7 @@ SInit ==
   [ sig |-> [o \in Obj |-> SigInit],
     inflight |-> [t \in 0..63 |-> {}],   \* interests consulted by the delivery whose handler
                                           \* currently runs in thread t
+    sigBusy |-> {},           \* threads inside iv_signal_register / iv_signal_unregister
     owed |-> {},              \* interests that must be called
     groups |-> {},            \* <<signum, scope, members>>: one member must be called
     wt |-> [o \in Obj |-> WaitInit],
@@ -89,8 +90,10 @@ SigUnreg(m, e) ==
       HandAll(mm, gs) == IF gs = {} THEN mm ELSE LET g == CHOOSE x \in gs : TRUE IN HandAll(Hand(mm, g), gs \ {g})
   IN IF mine = {} THEN m1 ELSE S(HandAll(m1, mine), "C10:handoff")
 
+(* the disposition is compared with the registered interests when a registration call has
+   returned and no other thread is inside one (the set of interests is then well defined) *)
 DispCheck(m, e) ==
-  Chk(m, TRUE, (e.h = "handler") = (RegSigs(m, e.sig) # {}), "C10:disposition")
+  Chk(m, m.sigBusy \ {e.t} = {}, (e.h = "handler") = (RegSigs(m, e.sig) # {}), "C10:disposition")
 
 -----------------------------------------------------------------------------
 (* C11 *)
@@ -168,7 +171,8 @@ SEnd(m, e) ==
   ELSE m
 
 SStep(m, e) ==
-  CASE e.e = "A" -> SApi(m, e)
+  CASE e.e = "A" -> SApi(IF e.op \in {"sig_reg", "sig_unreg"} THEN [m EXCEPT !.sigBusy = @ \ {e.t}] ELSE m, e)
+    [] e.e = "SigApiB" -> [m EXCEPT !.sigBusy = @ \cup {e.t}]
     [] e.e = "SigDlv" -> SigDeliver(m, e)
     [] e.e = "SigRet" -> [m EXCEPT !.inflight[e.t] = {}]
     [] e.e = "DispNow" -> DispCheck(m, e)
